@@ -15,13 +15,15 @@ git -C /repo worktree remove --force $W; rm -rf $W
 echo "confirm: demo on pristine exit=$res_base, demo on mutant exit=$res_mut, stable tests on mutant: $st"
 cd /repo && git apply $out/patch.diff || exit 2
 cd /verif
+# results of runs against a patched tree never touch the committed evidence / replays
+export WV_EVIDENCE=/var/tmp/wv-seed-out/$name/ev WV_REPLAYS=/var/tmp/wv-seed-out/$name/rep WV_RUN=/var/tmp/wv-seed-out/$name/run
 results=""
 for c in "$@"; do
   o=$(./check $c --tier quick 2>&1); rc=$?
   echo "== $c exit=$rc"; echo "$o" | grep -m3 -A1 "^VIOLATION\|^ERROR" | cut -c1-400
   results="$results $c=$rc"
 done
-git -C /repo checkout -- . ; git -C /repo status --short
+git -C /repo checkout -- . ; git -C /repo status --short; rm -rf /var/tmp/wv-seed-out/$name
 mkdir -p /verif/seeded/$name
 cp $out/patch.diff /verif/seeded/$name/; for f in $out/*; do case "$f" in *.diff) ;; *) [ -f "$f" ] && [ $(stat -c %s "$f") -lt 200000 ] && cp "$f" /verif/seeded/$name/ ;; esac; done
 python3 - "$name" "$res_base" "$res_mut" "$st" "$results" <<'PY'
